@@ -39,8 +39,11 @@ def gen_case(rs, tier):
     if krng.random() < 0.2:
         frng = W.stream(rs, "faults")
         faults = [{"kind": frng.choice(["fs.eio", "fs.enospc"]), "at": frng.randint(0, 10), "arg": frng.choice([0.0, 0.5, 0.9])}]
-    return {"design": ast, "knobs": knobs, "strategy": krng.choice(["IterateSATGen", "IterateSATGen", "CMSGen", "UniGen"]),
+    case = {"design": ast, "knobs": knobs, "strategy": krng.choice(["IterateSATGen", "IterateSATGen", "CMSGen", "UniGen"]),
             "n": krng.choice([2, 4, 4, 6]), "faults": faults}
+    case["tier"] = tier
+    case["sweep"] = W.stream(rs, "sweep").random() < (0.15 if tier == "thorough" else 0.04)
+    return case
 
 
 def strict_dimacs(text):
@@ -91,7 +94,7 @@ def canon(clauses):
     return Counter(tuple(sorted(c)) for c in clauses)
 
 
-def run_case(case):
+def run_one(case):
     ast = case["design"]
     strat = case["strategy"]
     with W.SimWorld(case["run_seed"], case["knobs"], case.get("faults")) as w:
@@ -242,6 +245,16 @@ def run_case(case):
             return base
         base["outcome"] = "ok"
         return base
+
+
+SWEEP_KINDS = ['fs.eio', 'fs.enospc']
+
+
+def run_case(case):
+    """A sweep case runs the workload fault-free and then once per (operation index x fault kind) placement."""
+    if case.get("sweep"):
+        return common.fault_sweep(run_one, case, SWEEP_KINDS, cap=160 if case.get("tier") == "thorough" else 60)
+    return run_one(case)
 
 
 def shrink_candidates(case):
